@@ -493,6 +493,46 @@ func runC06(w *World, r *Report) {
 	r.Rule("C06.convert-pairs-sided", "the checkpoint conversion tables built in graph.compile type every entry with the right side (receiver: input pair, END: the graph's output pair; sender: output pair, START: the graph's input pair) and every installed pair is written somewhere", 4)
 	streamPairsSetChecks(w, r, "C06.convert-pairs-sided")
 
+	// the other interrupt exit (a node asked for the interrupt / a nested graph interrupted) saves tasks that were already
+	// computed but not started as pending inputs; restored tasks are not gated again, so the interrupt-before nodes among
+	// them have to be reported by THIS interrupt
+	r.Rule("C06.pending-before-reported", "handleInterruptWithSubGraphAndRerunNodes reports as BeforeNodes the interrupt-before nodes among the pending tasks it saves (getHitKey(pendingTasks, r.interruptBeforeNodes))", 1)
+	{
+		h := w.Fn("compose", "runner.handleInterruptWithSubGraphAndRerunNodes")
+		fBefore := w.Field("compose", "InterruptInfo", "BeforeNodes")
+		fInput := w.Field("compose", "task", "input")
+		fInputs := w.Field("compose", "checkpoint", "Inputs")
+		// the []*task parameters whose elements' inputs go into checkpoint.Inputs as they are
+		pending := map[*ssa.Parameter]bool{}
+		instrs(h, func(in ssa.Instruction) {
+			mu, ok := in.(*ssa.MapUpdate)
+			if !ok || !isLoadOfField(mu.Map, fInputs) {
+				return
+			}
+			if f, base := loadedField(mu.Value); f != nil && sameField(f, fInput) {
+				if p := paramRoot(base, 0); p != nil {
+					pending[p] = true
+				}
+			}
+		})
+		good, det := false, "InterruptInfo.BeforeNodes is never set in this handler"
+		if len(pending) == 0 {
+			det = "no pending-task parameter found (tasks whose input is saved as it is)"
+		}
+		for _, fw := range fieldWrites(h) {
+			if !sameField(fw.field, fBefore) {
+				continue
+			}
+			det = "BeforeNodes is not getHitKey(<pending tasks>, r.interruptBeforeNodes)"
+			if c, ok := fw.val.(*ssa.Call); ok && isCallTo(c, hit) {
+				if p, ok := c.Call.Args[0].(*ssa.Parameter); ok && pending[p] && isLoadOfField(c.Call.Args[1], ibn) {
+					good = true
+				}
+			}
+		}
+		r.Check(good, "C06.pending-before-reported", "handleInterruptWithSubGraphAndRerunNodes reports the gated nodes among its pending tasks", h.Pos(), "BeforeNodes = getHitKey(pendingTasks, r.interruptBeforeNodes)", det+": in a Workflow (eager), an interrupt-before node that was already computed as next task when a slower task asks for an interrupt (InterruptAndRerun, nested interrupt) is saved as a pending input but not reported; the resumed run restores it ungated and it executes without ever having been reported")
+	}
+
 	r.Rule("C06.fresh-node-no-checkpoint", "a node scheduled by createTasks (not restored) starts from a context without any checkpoint: clearCheckPoint leaves the context unchanged only when it carries none (shared with C05.nested-once)", 1)
 	clearCheckPointExact(w, r, "C06.fresh-node-no-checkpoint")
 
